@@ -47,6 +47,22 @@ def _programs():
     f = T.nested_fanout()
     yield ("failing-nested", f, ins, {}, ("nc", 0))
     yield ("failing-plain", plain, ins, {}, ("nb", 0))
+    sh = T.two_gates_shared_target(True, False)
+    sh["nodes"][1]["behav"] = {"seq": [False]}
+    sh["nodes"][2]["behav"] = {"seq": ["t"]}
+    yield ("two-gates-shared-target", sh, ins, {}, None)
+    m3 = T.multi_route(False)
+    m3["nodes"][1]["behav"] = {"seq": [["p", "r"]]}
+    yield ("multi-route", m3, ins, {}, None)
+    sigloop = T.prog([T.fn("step", ["count"], ["count"], emit=["turn_done"], behav={"py": "count + 1"}), T.route("gt", ["count"], ["step", "END"], wait_for=["turn_done"], behav={"py": "'step' if count < 2 else END"})])
+    yield ("signal-loop", sigloop, {"count": 0}, {}, None)
+    yield ("mapping-node-continue-failing-item", T.mapped_node("zip", "continue"), {"e0": ["prov", "e0"], "x": [["i", 0], ["i", 1], ["i", 2]]}, {}, ("mc", 1))
+    yield ("failing-gate", r, ins, {}, ("gt", 0))
+    cm = copy.deepcopy(T.mapped_node())
+    for s_ in T.all_specs(cm):
+        if s_["kind"] == "fn":
+            s_["cache"] = True
+    yield ("cached-mapping-node", cm, {"e0": ["prov", "e0"], "x": [["i", 0], ["i", 0]]}, {}, "cache")
     fm = c15.map_item_graph(True)
     fm = copy.deepcopy(fm)
     fm["nodes"][1]["fail_args"] = {"b0": [["mb", 0, [["x", ["i", 1]]]]]}
